@@ -118,6 +118,15 @@ Section Pool.
   Definition held_of (h : handle) : list nat := match h with HLive (Some x) => [x] | _ => [] end.
   Definition held (s : pstate) : list nat := flat_map held_of (p_handles s).
 End Pool.
+Arguments PS {Q} _ _ _ _ _ _.
+Arguments p_q {Q} _.
+Arguments p_handles {Q} _.
+Arguments p_size {Q} _.
+Arguments p_alive {Q} _.
+Arguments p_constructed {Q} _.
+Arguments p_destroyed {Q} _.
+Arguments held {Q} _.
+Arguments valid_op {Q} _ _.
 
 (* ---- list-based reference implementation of the queue specification *)
 Definition LQ := list nat.
